@@ -229,6 +229,8 @@ def run (reqsT script : String) (impl : List String) : String :=
         let spec := specE2E sentReqs dn
         s!"{if agree then "A" else "D"} {if spec then "S" else "V"} {model}"
     | _, _ => "E E bad-impl"
+  -- the harness could not complete one plain exchange through the proxy (nothing to evaluate the predicate on)
+  | some _, some _, ["warmup-failed"] => "D S no-exchange-completes"
   | _, _, _ => "E E bad-case"
 
 end E2E
